@@ -195,6 +195,13 @@ def h1_request(draw: Any, allow_head: bool = False, big: bool = True,
 @st.composite
 def h2_request(draw: Any, allow_head: bool = False, big: bool = True) -> Dict[str, Any]:
     body = draw(body_spec(big=big))
+    pad = draw(st.sampled_from([0, 0, 0, 1, 100, 255]))
+    frames = draw(chunk_plan(body["len"], max_chunks=30))
+    if pad and body["len"] > 2000 and draw(st.booleans()):
+        # many small frames, each mostly padding: the credit the padding uses up exceeds a
+        # whole window long before the body is through
+        size = draw(st.sampled_from([40, 150]))
+        frames = [size] * min(2000, body["len"] // size + 1)
     authority = draw(st.sampled_from(["example.com", "localhost:8080", "a.b"]))
     headers = draw(header_list(h2=True))
     if draw(st.integers(0, 4)) == 0:
@@ -209,8 +216,10 @@ def h2_request(draw: Any, allow_head: bool = False, big: bool = True) -> Dict[st
         "headers": headers,
         "body_len": body["len"],
         "body_seed": body["seed"],
-        "frames": draw(chunk_plan(body["len"], max_chunks=30)),
+        "frames": frames,
         "end_with_headers": body["len"] == 0 and draw(st.booleans()),
+        # padding on every DATA frame of the upload (legal; it uses flow-control credit too)
+        "pad": pad,
     }
 
 
